@@ -1,8 +1,259 @@
-(* C16 — exported theorems only: each is closed by [exact] and followed by Print Assumptions. *)
-From Coq Require Import List ZArith Bool.
-From Verif Require Import C16.Model C16.Spec C16.Proofs_Evict.
+(* C16 — exported theorems only: each is closed by [exact] and followed by Print Assumptions;
+   non-vacuity Examples at the end. *)
+From Coq Require Import List ZArith Bool Lia.
+From Verif Require Import C16.Model C16.Spec C16.ModelArb C16.SpecArb
+  C16.Proofs_Evict C16.Proofs_Limiter C16.Proofs_Seq C16.Proofs_Arb C16.Proofs_Arb2 C16.Proofs_Arb3 C16.Proofs_Arb4.
+Import ListNotations.
 Open Scope Z_scope.
 
-Theorem c16_tmp : forall A i (v : A) l, length (set_nth i v l) = length l.
-Proof. exact @set_nth_length. Qed.
-Print Assumptions c16_tmp.
+(* ================= arbitration ================= *)
+
+(* after a round, whatever the order in which the waiting jobs are processed, the pods being
+   migrated (running job or passed arbitration) number at most max(limit, number before):
+   globally, per node, per namespace, per workload *)
+Theorem c16_round_limits : forall c fail order st,
+  wf_pods st -> wf_cfg c -> limits_hold c st (round_on c fail order st).
+Proof. exact round_on_limits. Qed.
+Print Assumptions c16_round_limits.
+
+(* the same bounds for the NUMBER OF MIGRATION JOBS that are running or passed arbitration, when
+   the live-or-waiting jobs reference pairwise different pods (guaranteed for jobs created through
+   Arbitrator.Filter, see c16_no_second_job_history) *)
+Theorem c16_round_limits_jobs : forall c fail order st,
+  wf_pods st -> wf_jobs st -> wf_cfg c -> distinct_pods st ->
+  job_limits_hold c st (round_on c fail order st).
+Proof. exact round_on_job_limits. Qed.
+Print Assumptions c16_round_limits_jobs.
+
+(* per workload, unavailable-or-migrating pods stay within max(maxUnavailable, number before) *)
+Theorem c16_unavailable : forall c fail order st,
+  wf_pods st -> wf_cfg c -> unavail_holds c st (round_on c fail order st).
+Proof. exact round_on_unavail. Qed.
+Print Assumptions c16_unavailable.
+
+(* a job whose pod passes the non-retryable filter but not a budget is left exactly as it was *)
+Theorem c16_refused_waits : forall c f st jid j p,
+  find_job st jid = Some j -> j_waiting j = true -> pod_of st j = Some p ->
+  nonretryable c st p = true -> retryable c true st p = false ->
+  arbitrate_one c f st jid = st.
+Proof. exact refused_waits. Qed.
+Print Assumptions c16_refused_waits.
+
+(* Arbitrator.Filter rejects a pod that already has a pending or running migration job *)
+Theorem c16_no_second_job : forall c st p,
+  has_live_job st p = true -> filter_pod c st p = false.
+Proof. exact filter_no_second_job. Qed.
+Print Assumptions c16_no_second_job.
+
+(* over histories: when jobs are created only through Filter (OEvict = Reconciler.Evict) and a
+   finished job is never put back to Pending/Running, no pod ever has two live migration jobs *)
+Theorem c16_no_second_job_history : forall c ops st,
+  wf_jobs st -> single_job st -> hist_ok c st ops -> single_job (final c st ops).
+Proof. exact history_single_job. Qed.
+Print Assumptions c16_no_second_job_history.
+
+(* the decision procedure that bin/check evaluates on the implementation's observables
+   (budgets, unavailability, per-job outcome: passed | failed-only-if-non-retryable | untouched)
+   holds of every round of the model, from every well-formed state, in the real sort order *)
+Theorem c16_round_code_ok : forall c f st,
+  wf_pods st -> wf_jobs st -> wf_cfg c -> round_code c st (round c f st) = 0.
+Proof. exact round_code_ok. Qed.
+Print Assumptions c16_round_code_ok.
+
+(* the boolean budget check means the Prop *)
+Theorem c16_limits_okb_sound : forall c st st',
+  a_pods st' = a_pods st -> limits_okb c st st' = true -> limits_hold c st st'.
+Proof. exact limits_okb_sound. Qed.
+Print Assumptions c16_limits_okb_sound.
+
+Theorem c16_unavail_okb_sound : forall c st st',
+  a_pods st' = a_pods st -> unavail_okb c st st' = true -> unavail_holds c st st'.
+Proof. exact unavail_okb_sound. Qed.
+Print Assumptions c16_unavail_okb_sound.
+
+(* ================= PodEvictor (check-and-reserve in one critical section) ================= *)
+
+(* every schedule of every number of threads: evictions issued and not failed never exceed the
+   per-node / per-namespace cap *)
+Theorem c16_conc_caps_all_schedules : forall dry c reqs sched,
+  caps_nonneg c ->
+  let s := exec (pe_step dry c reqs) (init_est (length reqs)) sched in
+  (forall m k, cap_node c = Some m -> k <> 0 -> issued_live reqs (on_node k) s <= m)
+  /\ (forall m k, cap_ns c = Some m -> issued_live reqs (on_ns k) s <= m).
+Proof. exact pe_conc_caps_all. Qed.
+Print Assumptions c16_conc_caps_all_schedules.
+
+(* the same, phrased with Lib.Interleave: after every prefix of every interleaving of the threads *)
+Theorem c16_conc_caps : forall dry c reqs sched,
+  caps_nonneg c -> interleaving (threads (length reqs)) sched ->
+  forall pre suf, sched = pre ++ suf ->
+  let s := exec (pe_step dry c reqs) (init_est (length reqs)) pre in
+  (forall m k, cap_node c = Some m -> k <> 0 -> issued_live reqs (on_node k) s <= m)
+  /\ (forall m k, cap_ns c = Some m -> issued_live reqs (on_ns k) s <= m).
+Proof. exact (fun dry c reqs sched Hc _ pre _ _ => pe_conc_caps_all dry c reqs pre Hc). Qed.
+Print Assumptions c16_conc_caps.
+
+(* whenever no thread sits between reserve and the API call or between a failed call and
+   unreserve, the reported counters equal the evictions issued and not failed *)
+Theorem c16_counters_exact : forall dry c reqs sched,
+  caps_nonneg c ->
+  let s := exec (pe_step dry c reqs) (init_est (length reqs)) sched in
+  settled s ->
+  (forall k, k <> 0 -> cn s k = issued_live reqs (on_node k) s) /\ cn s 0 = 0
+  /\ (forall k, cs s k = issued_live reqs (on_ns k) s)
+  /\ ct s = issued_live reqs any_req s.
+Proof. exact pe_counters_exact. Qed.
+Print Assumptions c16_counters_exact.
+
+(* sequential caller, any order of requests *)
+Theorem c16_seq_caps : forall dry c reqs order,
+  caps_nonneg c ->
+  let s := exec (pe_step dry c reqs) (init_est (length reqs)) (seq_schedule order) in
+  (forall m k, cap_node c = Some m -> k <> 0 -> issued_live reqs (on_node k) s <= m)
+  /\ (forall m k, cap_ns c = Some m -> issued_live reqs (on_ns k) s <= m)
+  /\ (forall k, k <> 0 -> cn s k = issued_live reqs (on_node k) s) /\ cn s 0 = 0
+  /\ (forall k, cs s k = issued_live reqs (on_ns k) s)
+  /\ ct s = issued_live reqs any_req s
+  /\ (dry = true -> calls s = []).
+Proof. exact pe_seq_caps. Qed.
+Print Assumptions c16_seq_caps.
+
+Theorem c16_refusal_frame : forall dry c reqs s i,
+  pc_of s i = PStart -> pc_of (pe_step dry c reqs s i) i = PRefused ->
+  let s' := pe_step dry c reqs s i in
+  cn s' = cn s /\ cs s' = cs s /\ ct s' = ct s /\ calls s' = calls s
+  /\ forall j, j <> i -> pc_of s' j = pc_of s j.
+Proof. exact pe_refusal_frame. Qed.
+Print Assumptions c16_refusal_frame.
+
+Theorem c16_dry_no_call : forall c reqs sched,
+  caps_nonneg c -> calls (exec (pe_step true c reqs) (init_est (length reqs)) sched) = [].
+Proof. exact pe_dry_no_call. Qed.
+Print Assumptions c16_dry_no_call.
+
+(* ================= evictorProxy + EvictionLimiter (two critical sections) ================= *)
+
+(* if nobody enters AllowEvict while another eviction is in flight, admitted-and-not-failed
+   evictions stay within all three caps and the counters equal the completed evictions *)
+Theorem c16_limiter_disciplined_caps : forall dry c reqs sched,
+  caps_nonneg c ->
+  disciplined (lim_step dry c reqs) reqs (init_est (length reqs)) sched ->
+  let s := exec (lim_step dry c reqs) (init_est (length reqs)) sched in
+  (forall m k, cap_node c = Some m -> k <> 0 ->
+     tsum (w_of false (on_node k) granted_pc) reqs (pcs s) <= m)
+  /\ (forall m k, cap_ns c = Some m -> tsum (w_of false (on_ns k) granted_pc) reqs (pcs s) <= m)
+  /\ (forall m, cap_total c = Some m -> tsum (w_of false any_req granted_pc) reqs (pcs s) <= m)
+  /\ (forall k, k <> 0 -> cn s k = tsum (w_of false (on_node k) doneok) reqs (pcs s))
+  /\ (forall k, cs s k = tsum (w_of false (on_ns k) doneok) reqs (pcs s))
+  /\ ct s = tsum (w_of false any_req doneok) reqs (pcs s).
+Proof. exact lim_disciplined_caps. Qed.
+Print Assumptions c16_limiter_disciplined_caps.
+
+Theorem c16_limiter_seq_caps : forall dry c reqs order,
+  caps_nonneg c ->
+  let s := exec (lim_step dry c reqs) (init_est (length reqs)) (seq_schedule order) in
+  (forall m k, cap_node c = Some m -> k <> 0 -> cn s k <= m)
+  /\ (forall m k, cap_ns c = Some m -> cs s k <= m)
+  /\ (forall m, cap_total c = Some m -> ct s <= m)
+  /\ (forall k, k <> 0 -> cn s k = tsum (w_of false (on_node k) doneok) reqs (pcs s))
+  /\ (forall k, cs s k = tsum (w_of false (on_ns k) doneok) reqs (pcs s))
+  /\ ct s = tsum (w_of false any_req doneok) reqs (pcs s).
+Proof. exact lim_seq_caps. Qed.
+Print Assumptions c16_limiter_seq_caps.
+
+(* concurrent callers: an interleaving of two threads issues two evictions under a total cap of 1
+   (known finding, replayed on the real code by the limiter stream) *)
+Theorem c16_limiter_conc_refuted :
+  exists c reqs sched m,
+    caps_nonneg c /\ interleaving (threads (length reqs)) sched /\ cap_total c = Some m /\
+    let s := exec (lim_step false c reqs) (init_est (length reqs)) sched in
+    m < issued_live reqs any_req s /\ m < ct s.
+Proof. exact lim_conc_refuted. Qed.
+Print Assumptions c16_limiter_conc_refuted.
+
+(* ================= non-vacuity ================= *)
+
+(* arbitration: global limit 1, two pods, two waiting jobs: the hypotheses hold, one job passes,
+   the other keeps waiting, and the budget is reached (1 = limit) *)
+Definition ex_cfg : cfg := mkCfg 1 0 0 (0, 0) (0, 0) true.
+Definition ex_st : ast :=
+  mkA [mkPod 1 1 1 0 0 0 true false true; mkPod 2 1 1 0 0 1 true false true] []
+      [mkJob 1 1 0 true true 0 false true false false; mkJob 2 2 1 true true 0 false true false false].
+
+Example c16_ex_wf : wf_pods ex_st /\ wf_jobs ex_st /\ wf_cfg ex_cfg.
+Proof.
+  repeat split; cbn; try lia.
+  - repeat constructor; cbn; intuition lia.
+  - intros v [<-|[<-|[]]]; cbn; lia.
+  - repeat constructor; cbn; intuition lia.
+Qed.
+
+Example c16_ex_round :
+  measure ex_st sel_all = 0 /\ measure (round ex_cfg 0 ex_st) sel_all = 1
+  /\ map j_waiting (a_jobs (round ex_cfg 0 ex_st)) = [true; false]
+  /\ map j_passed (a_jobs (round ex_cfg 0 ex_st)) = [false; true].
+Proof. vm_compute. repeat split. Qed.
+
+Example c16_ex_distinct : distinct_pods ex_st /\ jcount (round ex_cfg 0 ex_st) sel_all = 1.
+Proof. split; [repeat constructor; cbn; intuition lia|vm_compute; reflexivity]. Qed.
+
+(* where the hypotheses of the job-count form are needed (both replayed on the real code by
+   corpus/C16/arbitration/jobcount_limits.case):
+   two waiting jobs for the SAME pod both pass under a global limit of 1 (one pod is migrated,
+   two jobs are "passed"); a job whose pod does not exist passes without any check *)
+Example c16_ex_same_pod_two_jobs :
+  let st := mkA [mkPod 1 1 1 0 0 0 true false true] []
+                [mkJob 1 1 0 true true 0 false true false false;
+                 mkJob 2 1 1 true true 0 false true false false] in
+  wf_pods st /\ measure (round ex_cfg 0 st) sel_all = 1 /\ jcount (round ex_cfg 0 st) sel_all = 2.
+Proof.
+  split; [split; [repeat constructor; cbn; intuition lia|intros v [<-|[]]; cbn; lia]|].
+  vm_compute. split; reflexivity.
+Qed.
+
+Example c16_ex_missing_pod_passes :
+  let st := mkA [mkPod 1 1 1 0 0 0 true false true; mkPod 2 1 1 0 0 1 true false false] []
+                [mkJob 1 1 0 true true 1 true false true false;
+                 mkJob 2 2 1 true true 0 false true false false] in
+  map j_passed (a_jobs (round ex_cfg 0 st)) = [true; true]
+  /\ countb (avail true) (a_jobs (round ex_cfg 0 st)) = 2
+  /\ measure (round ex_cfg 0 st) sel_all = 1.
+Proof. vm_compute. repeat split. Qed.
+
+(* histories: Evict j1 (pod 1), a round, Evict j2 for the same pod is refused *)
+Definition ex_st2 : ast :=
+  mkA [mkPod 1 1 1 0 0 0 true false true] []
+      [mkJob 1 1 0 false false 0 false false false false; mkJob 2 1 1 false false 0 false false false false].
+Definition ex_ops : list op := [OEvict 1; ORound 0; OEvict 2; OSetPhase 1 1; OSetPhase 1 2; OEvict 2].
+
+Example c16_ex_history :
+  wf_jobs ex_st2 /\ single_job ex_st2 /\ hist_ok ex_cfg ex_st2 ex_ops
+  /\ map snd (run_ops ex_cfg ex_st2 ex_ops) = [1; -1; 0; -1; -1; 1].
+Proof.
+  split; [repeat constructor; cbn; intuition lia|].
+  split; [intros k _; unfold live_count; cbn; lia|].
+  split; [|vm_compute; reflexivity].
+  cbn. repeat split; auto; intros; try discriminate.
+  all: try (match goal with H : Some _ = Some _ |- _ => inversion H; subst; reflexivity end).
+Qed.
+
+(* PodEvictor: per-node cap 1, three concurrent requests for the node: exactly one is issued *)
+Example c16_ex_evict :
+  let c := mkCaps (Some 1) None None in
+  let reqs := [mkReq 1 1 true; mkReq 1 1 true; mkReq 1 1 true] in
+  caps_nonneg c /\
+  issued_live reqs (on_node 1)
+    (exec (pe_step false c reqs) (init_est 3) [0; 1; 2; 0; 1; 2; 0; 1; 2; 0; 1; 2]%nat) = 1.
+Proof.
+  split; [repeat split; cbn; intros m H; inversion H; lia|vm_compute; reflexivity].
+Qed.
+
+(* limiter: a disciplined (sequential) schedule exists and reaches the cap *)
+Example c16_ex_limiter :
+  let c := mkCaps None None (Some 1) in
+  let reqs := [mkReq 1 1 true; mkReq 1 1 true] in
+  disciplined (lim_step false c reqs) reqs (init_est 2) (seq_schedule [0; 1]%nat)
+  /\ ct (exec (lim_step false c reqs) (init_est 2) (seq_schedule [0; 1]%nat)) = 1.
+Proof.
+  split; [apply disciplined_seq, quiet_init|vm_compute; reflexivity].
+Qed.
